@@ -103,8 +103,11 @@ def run(ctx, replay=None):
 RULE = ("A case is a history: `new kind=var|opt|oref|exp alts=.. n=N` creates N objects of one configuration (etl and std side by side), "
         "each following line is one operation on them; after every line the result and the (index, value) of every object are compared. "
         "Configurations: variant over {int,float}, {float,int}, {int,Trk}, {Trk,int}, {Trk,int,float}, {int,float,Trk}, {Trk,Mo}, "
-        "{int,float,Trk,Mo}, {float,Mo}, {int,C}, {int,D}, {int,A}, {int,B}, {Q,X}, {C,B}, {int,int} (a repeated alternative type: the "
-        "by-type forms and the converting forms must be rejected); optional<int|float|Trk|Mo|C|D|A|B|X> with a "
+        "{int,float,Trk,Mo}, {float,Mo}, {int,C}, {int,D}, {int,A}, {int,B}, {Q,X}, {C,B}, and four with a REPEATED alternative type: "
+        "{int,int}, {Trk,int,Trk}, {Q,int,Q}, {Mo,Mo} (objects are set up by emplace<I> and by `make` = variant(in_place_index<I>, x); "
+        "copy/move assignment and construction, swap, the six comparisons, visit / visit_with_index and get_if<I> for every "
+        "(from, to) pair of INDICES, same type at different indices included; the by-type forms and the converting forms from "
+        "the repeated type must be rejected); optional<int|float|Trk|Mo|C|D|A|B|X> with a "
         "partner optional<long|int>; optional<int&>; expected<int,Trk>, <Trk,int>, <int,float>, <Trk,Mo>, <int,C>, <Q,X>, <D,B> "
         "(Trk: non-trivial copy/move/destructor, Mo: move-only; float incl. NaN; C, D, A, B: exactly one user-provided special member "
         "- copy ctor, move ctor, copy assignment, move assignment - the other three defaulted and trivial; Q, X: all four "
@@ -123,7 +126,15 @@ RULE = ("A case is a history: `new kind=var|opt|oref|exp alts=.. n=N` creates N 
         "optional<T>/optional<U>, nullopt and value forms in both operand orders, converting construction/assignment from "
         "optional<U>, value_or/and_then/or_else on lvalues and rvalues; 3-variant visits over every index triple; all histories of "
         "depth 2 (thorough: 3) over a 27-31-operation alphabet; expected: == / != for every pair of states and value() (members etl "
-        "does not have: known findings). Random part (VERIF_SEED): histories of 10-30 operations over all "
+        "does not have: known findings). Selector probes (`new kind=sel`, `sel a=<kind> alts=<kinds> how=ctor|assign`): which "
+        "alternative variant<alts...>(arg) / `v = arg` ends up holding (or `nc`: not constructible / assignable), etl against "
+        "std::variant, for every argument kind {bool, char, short, int, long, unsigned, float, double, char const*, int*, "
+        "void const*, nullptr_t, string literal, unscoped enum, scoped enum, Text (class constructible from char const*), Num "
+        "(class constructible from int), ToInt (class with operator int)} x 19 alternative lists mixing bool, arithmetic, "
+        "pointer, enumeration and class alternatives ({bool,Text}, {Text,bool}, {int,bool,void const*}, {bool,int}, {bool,Num}, "
+        "{char,long,double}, {float,long}, {short,unsigned}, {char const*,Text}, {void const*,bool}, {Text,Num}, {int,SE}, "
+        "{UE,long}, {bool,double,Text}, {bool}, {bool,bool}, {int,float,double}, {long,Num}, {int*,bool}) x both forms. "
+        "Random part (VERIF_SEED): histories of 10-30 operations over all "
         "members. A case is non-trivial when some line leaves the objects in a state different from the initial one; "
         "distinct = distinct case text.")
 ASSUMPTIONS = ["std::variant / std::optional / std::expected of libstdc++ 12 (-std=c++23) are the reference for spec validation (R2); "
@@ -153,8 +164,10 @@ ASSUMPTIONS = ["std::variant / std::optional / std::expected of libstdc++ 12 (-s
                "their precondition holds; float -> integer conversions are not driven with NaN"]
 TRUSTED = ["hand model Tetl/C07/Model.lean tied to the source by the correspondence run (R1) on every run",
            "spec Tetl/C07/Spec.lean validated against libstdc++ std::variant/std::optional/std::expected (R2) on every run",
-           "the conversion-rank table of the element types (Driver.convTab) is test data, validated by R1 and R2 on every "
-           "argument type x configuration; C++ overload resolution itself is the compiler's",
+           "the table of implicit conversion sequences between kinds of types (Model.ics: which conversions exist and their rank, "
+           "[over.best.ics] / [over.ics.rank] restricted to the 18 modelled kinds, LP64 with signed plain char) is the compiler's "
+           "overload resolution written down as data; validated by R1 and R2 on every argument kind x alternative list of the "
+           "selector probes and every argument type x configuration of the converting forms",
            "compile probes (PROBES in checks/props/c07.py) decide whether the five optional members exist; their result is part "
            "of the harness flags and of the evidence"]
 T = "Tetl.C07.Props."
@@ -597,20 +610,32 @@ LEVEL_TEXT = ("etl::variant is modelled as (index, value of the active union mem
               "rvalue overloads with the copy / move construction of the result and the moved-from object. The alternative the "
               "converting constructor / assignment selects (a left-to-right scan keeping the best non-narrowing candidate and a tie "
               "flag) is proved equal to the declarative selection (the unique viable alternative strictly better than all others) for "
-              "any candidate table. Value categories cannot be carried by a value-level model: which reference kind visit, "
+              "any candidate table. The candidate table itself is part of the model for 18 kinds of argument and alternative types "
+              "(bool, five further integer and two floating-point types, three pointer types, nullptr_t, string literals, unscoped and "
+              "scoped enumerations, classes with a converting constructor from int / from char const*, a class with a conversion "
+              "function): the no-narrowing test of variant_alternative_candidate (`Ti x[] = {forward<T>(t)}` well-formed), applied to "
+              "EVERY pair of kinds, is proved equal to [dcl.init.list]/7 clause by clause - floating -> integer, double -> float, "
+              "integer / unscoped enumeration -> floating, integer -> integer that cannot represent every value, and pointer -> bool "
+              "(P1957R2) - (narrow_eq), and the selected alternative is proved to be, for any argument kind and ANY list of "
+              "alternative kinds, repeated ones included, exactly the one [variant.ctor]/14 prescribes: the alternative whose FUN(Ti) "
+              "exists and whose conversion sequence is strictly better than that of every other such alternative, and none when "
+              "there is no such alternative (selectK_eq, selectK_none; e.g. variant<bool, Text>{\"abc\"} holds Text: "
+              "select_pointer_not_bool). A variant with a repeated alternative type is an ordinary configuration of model and spec "
+              "(both go by index): assign_repeated_type states that assignment between two different indices never assigns through, "
+              "whatever the types are. Value categories cannot be carried by a value-level model: which reference kind visit, "
               "unchecked_get, operator[], operator*, error(), and_then and or_else hand on for lvalue, const lvalue, rvalue and const "
               "rvalue objects, and what a by-value visitor leaves behind in the source, is observed at compile time (decltype matrix) "
               "and at run time and compared with std line by line. The model is tied to the current source on every run by executing "
               "model and implementation on the same histories (every from/to state pair x every assignment, construction, swap and "
-              "comparison form over 16 variant, 9 optional, 7 expected configurations with trivially copyable, non-trivial, move-only "
-              "alternatives, a repeated alternative type, six kinds whose four special members are distinguishable in the stored value - "
+              "comparison form over 19 variant, 9 optional, 7 expected configurations with trivially copyable, non-trivial, move-only "
+              "alternatives, four with a repeated alternative type, six kinds whose four special members are distinguishable in the stored value - "
               "also as lvalue and rvalue ARGUMENTS of the converting forms - and optional<int&>; visit with non-variant arguments; all "
-              "depth-2/3 histories; random long histories) under ASan/UBSan; the spec is validated against libstdc++ on the same histories.")
+              "depth-2/3 histories; random long histories; the selector probes over 18 argument kinds x 19 alternative lists) under ASan/UBSan; the spec is validated against libstdc++ on the same histories.")
 LEVEL_NOTE = ("Trusted: Lean kernel + propext/Classical.choice/Quot.sound; the hand model's fidelity outside the explored inputs; "
               "g++-12/ASan; libstdc++ 12 as oracle for spec validation. Overload resolution and template constraints are the compiler's: "
               "WHICH overload a call selects (member template or converting constructor + move assignment; which alternative's "
-              "conversion rank) is given to the model as data (the `direct` flag and the candidate table of the driver, a function of "
-              "the types) and validated by the correspondence run on every argument type x category x configuration; what the selected "
+              "conversion rank) is given to the model as data (the `direct` flag of the driver and the conversion table Model.ics, "
+              "functions of the types) and validated by the correspondence run on every argument type x category x configuration; what the selected "
               "route does is modelled and proved. `!=` is modelled as the negation of `==` (the C++20 rewrite the library relies on; "
               "std uses the element's own `!=`): hypothesis `hne`. Object lifetime (construct/destroy pairing) is property C03, not "
               "modelled here. optional<T&> is modelled as a nullable cell index and compared with a pointer reference written out in "
@@ -621,10 +646,11 @@ CORRESPONDENCE_ONLY = [
     "optional<T&> (bind/rebind, reset, copy, swap of the pointer, write-through, comparisons): the model is a nullable cell index; "
     "compared with a pointer reference on every run, no theorem beyond the optional relational theorems it reuses",
     "which route a converting assignment takes (`direct` of Model.convAssign: the operator=(T&&) template is viable for class "
-    "alternatives, and for optional unless T is scalar and U = T) and the conversion-rank table of the element types "
-    "(Driver.convTab): functions of the types, i.e. the compiler's overload resolution; given to the model as data and validated by "
-    "R1/R2 on every argument type x lvalue/rvalue x configuration (both routes themselves are in the model and proved: "
-    "convAssign_refines_partial)",
+    "alternatives, and for optional unless T is scalar and U = T) and which implicit conversions exist with which rank (Model.ics): "
+    "functions of the types, i.e. the compiler's overload resolution; given to the model as data and validated by "
+    "R1/R2 on every argument type x lvalue/rvalue x configuration and every argument kind x alternative list of the selector "
+    "probes (both routes themselves are in the model and proved: convAssign_refines_partial; the narrowing filter and the "
+    "selection on top of that table are proved: narrow_eq, selectK_eq)",
     "conversion of the argument VALUE (short -> int, float -> Trk(int) truncation, int -> float): arithmetic of the driver's test "
     "data, validated by R1/R2",
     "expected's and_then / or_else on an rvalue expected (the value / error is moved out): Model.expAndThen / expOrElse give the "
